@@ -94,11 +94,12 @@ func makeCombineInputs(c *runner.Ctx, cs caseSpec) *[2]combineInput {
 		}
 		var in *fragInput
 		for try := 0; try < 8 && in == nil; try++ {
-			in = makeFragInput(c, fragGenOptions{media: media, hostile: c.Rand.Chance(1, 2), noTrexDeps: true, oneFrag: true}, false)
+			in = makeFragInput(c, fragGenOptions{tool: "combine-segs", media: media, hostile: c.Rand.Chance(1, 2), noTrexDeps: true, oneFrag: true, separateMedia: true}, false)
 			if in != nil {
-				init, err := parseInitBytes(in.built.InitBytes)
-				if err != nil || !independentOfTrex(in.built.Media(), init, 1) {
+				init, err := parseInitBytes(in.initBytes)
+				if err != nil || !independentOfTrex(in.media, init, 1) {
 					c.Count("combine_inputs_rejected_trex_dependent", 1)
+					c.Seen("combine_inputs_rejected_trex_dependent_route", in.route)
 					in = nil
 				}
 			}
@@ -107,7 +108,9 @@ func makeCombineInputs(c *runner.Ctx, cs caseSpec) *[2]combineInput {
 			c.Inconclusive("input generator: no trex-independent input drawn")
 			return nil
 		}
-		ins[i] = combineInput{in.built.InitBytes, in.built.Media(), in.want, in.label}
+		in.census(c, "combine-segs")
+		c.Seen("combine_input_writer", in.writer())
+		ins[i] = combineInput{in.initBytes, in.media, in.want, in.label}
 	}
 	return &ins
 }
